@@ -56,6 +56,12 @@ impl<C: Suite> Fixed<C> {
     }
 }
 
+/// every aligned 16 byte block of a masked payload as its own fingerprint: with a fixed message two equal blocks
+/// mean two equal key stream blocks, although the payloads as a whole differ
+fn blocks(label: &str, mask: &[u8]) -> Vec<(String, Vec<u8>)> {
+    mask.chunks(16).enumerate().filter(|(_, c)| c.len() == 16).map(|(i, c)| (format!("{} block {}", label, i), c.to_vec())).collect()
+}
+
 /// run operation `op` with the fixed arguments and return its ephemeral fingerprints
 /// (ephemeral points, masks, secrets), each labelled
 pub fn run_op<C: Suite>(f: &Fixed<C>, op: usize) -> Vec<(String, Vec<u8>)> {
@@ -98,11 +104,15 @@ pub fn run_op<C: Suite>(f: &Fixed<C>, op: usize) -> Vec<(String, Vec<u8>)> {
         }
         2 => {
             let ct = f.pk.sign_crypt(s, msg);
-            vec![("signcrypt u".into(), pt(&ct.u)), ("signcrypt mask".into(), ct.v.clone()), ("signcrypt w".into(), pt(&ct.w))]
+            let mut v = vec![("signcrypt u".into(), pt(&ct.u)), ("signcrypt mask".into(), ct.v.clone()), ("signcrypt w".into(), pt(&ct.w))];
+            v.extend(blocks("signcrypt mask", &ct.v));
+            v
         }
         3 => {
             let ct = f.pk.encrypt_time_lock(s, msg, b"id").expect("time lock");
-            vec![("timelock u".into(), pt(&ct.u)), ("timelock v".into(), ct.v.to_vec()), ("timelock mask".into(), ct.w.clone())]
+            let mut v = vec![("timelock u".into(), pt(&ct.u)), ("timelock v".into(), ct.v.to_vec()), ("timelock mask".into(), ct.w.clone())];
+            v.extend(blocks("timelock mask", &ct.w));
+            v
         }
         4 => {
             let ct = f.pk.encrypt_key_el_gamal(&f.sk).expect("elgamal");
